@@ -110,6 +110,7 @@ func (c *Ctx) traceParamUp(v ssa.Value) ssa.Value {
 // `want` one of the values on the chain?
 func (c *Ctx) paramChainHas(v, want ssa.Value) bool {
 	for depth := 0; depth < 8; depth++ {
+		v = forwardFieldLoad(v)
 		if v == want {
 			return true
 		}
@@ -145,6 +146,21 @@ func callsOf(fn *ssa.Function, callee string) []*ssa.Call {
 		for _, ins := range b.Instrs {
 			if call, ok := ins.(*ssa.Call); ok {
 				if sc := call.Call.StaticCallee(); sc != nil && fnName(sc) == callee {
+					out = append(out, call)
+				}
+			}
+		}
+	}
+	return out
+}
+
+// callsOfName: static calls in fn whose callee's (unqualified) name is name.
+func callsOfName(fn *ssa.Function, name string) []*ssa.Call {
+	var out []*ssa.Call
+	for _, b := range fn.Blocks {
+		for _, ins := range b.Instrs {
+			if call, ok := ins.(*ssa.Call); ok {
+				if sc := call.Call.StaticCallee(); sc != nil && sc.Name() == name {
 					out = append(out, call)
 				}
 			}
@@ -282,6 +298,26 @@ func init() {
 						}
 					}
 				}
+				if !fromBuf && ok && card.Call.StaticCallee() != nil && card.Call.StaticCallee().Name() == "GetCardinality" {
+					// FromBuffer in a helper method of the same list, called before the cardinality is taken
+					for _, fb := range fn.Blocks {
+						for _, ins := range fb.Instrs {
+							hc, isCall := ins.(*ssa.Call)
+							if !isCall || !before(hc, card) {
+								continue
+							}
+							sc := hc.Call.StaticCallee()
+							if sc == nil || !c.inRoot(sc) || sc.Blocks == nil || len(hc.Call.Args) == 0 || hc.Call.Args[0] != ssa.Value(fn.Params[0]) || sc.Signature.Recv() == nil {
+								continue
+							}
+							for _, c3 := range callsOfName(sc, "FromBuffer") {
+								if exprSig(c3.Call.Args[0], 0) == exprSig(card.Call.Args[0], 0) {
+									fromBuf = true
+								}
+							}
+						}
+					}
+				}
 				if !fromBuf {
 					probs = append(probs, "cardinality argument is not GetCardinality() of the bitmap just deserialised with FromBuffer")
 				}
@@ -304,13 +340,19 @@ func init() {
 				}
 			}
 			// reader chunk index: n / uint32(postings.chunkSize)
-			for _, name := range []string{"(*PostingsIterator).nextDocNumAtOrAfter", "(*PostingsIterator).nextDocNumAtOrAfterClean"} {
-				fn := c.MustFn(name)
-				n := 0
+			// every division in a method of the postings iterator is a chunk index (wherever
+			// the navigation code is split): it divides by the list's chunkSize
+			nq := 0
+			for _, fn := range c.srcFns {
+				recv := fn.Signature.Recv()
+				if recv == nil || namedOf(recv.Type()) == nil || namedOf(recv.Type()).Obj().Name() != "PostingsIterator" {
+					continue
+				}
+				name := fnName(fn)
 				for _, b := range fn.Blocks {
 					for _, ins := range b.Instrs {
 						if bin, ok := ins.(*ssa.BinOp); ok && bin.Op == token.QUO {
-							n++
+							nq++
 							key := name + "/chunk-index"
 							if exprSig(bin.Y, 0) == ".chunkSize" {
 								r.ok(key, name, c.pos(bin.Pos()), "chunk index = docNum / postings.chunkSize")
@@ -320,9 +362,9 @@ func init() {
 						}
 					}
 				}
-				if n == 0 {
-					r.undecided(name+"/chunk-index", name, c.pos(fn.Pos()), "no chunk-index division found")
-				}
+			}
+			if nq < 2 {
+				r.undecided("PostingsIterator/chunk-index", "", "-", fmt.Sprintf("%d chunk-index divisions found in the iterator's methods, both navigation paths need one", nq))
 			}
 			_ = gcs
 		},
@@ -498,7 +540,47 @@ func init() {
 				}
 			}
 			sort.Strings(ks)
-			if got := strings.Join(ks, " "); got == "+1 +1 >=128 >>7" {
+			// accepted spellings: n from 0 with `return n+1` (two +1), or n from 1 (one +1
+			// and a counter that starts at the constant 1); the comparison in either polarity
+			got := strings.Join(ks, " ")
+			plus, cmp, shift, other := 0, 0, 0, 0
+			for _, b := range fn.Blocks {
+				for _, ins := range b.Instrs {
+					bin, ok := ins.(*ssa.BinOp)
+					if !ok {
+						continue
+					}
+					for oi, op := range []ssa.Value{bin.X, bin.Y} {
+						k, ok := constInt(op)
+						if !ok {
+							continue
+						}
+						switch tok := canonArith(bin.Op.String(), oi == 0); {
+						case tok == "+" && k == 1:
+							plus++
+						case tok == "lt" && k == 128, tok == "le" && k == 127:
+							cmp++
+						case tok == ">>" && k == 7:
+							shift++
+						default:
+							other++
+						}
+					}
+				}
+			}
+			startsAtOne := false
+			for _, b := range fn.Blocks {
+				for _, ins := range b.Instrs {
+					if phi, ok := ins.(*ssa.Phi); ok {
+						for _, e := range phi.Edges {
+							if k, ok := constInt(e); ok && k == 1 {
+								startsAtOne = true
+							}
+						}
+					}
+				}
+			}
+			if other == 0 && cmp == 1 && shift == 1 && (plus == 2 || (plus == 1 && startsAtOne)) {
 				r.ok(key, fnName(fn), c.pos(fn.Pos()), "counts one byte per 7 bits: for x >= 0x80 { x >>= 7; n++ }; n+1")
 			} else {
 				r.bad(key, fnName(fn), c.pos(fn.Pos()), "numUvarintBytes no longer has the shape of the uvarint length loop (constants now: "+got+")")
@@ -1006,7 +1088,9 @@ func init() {
 			// the decision function: the merge-side function that tests under32Bits
 			var fn *ssa.Function
 			for _, f := range c.fnsCalling("under32Bits") {
-				if c.entries().MERGE[f] || c.entries().MERGE[f.Parent()] || strings.HasPrefix(fnName(f), "finishTerm") {
+				// a closure, a named function or a method of a small carrier struct (then it is
+				// reached through a bound-method value): anything but the builder side
+				if !c.entries().BUILD[topFn(f)] || c.entries().MERGE[topFn(f)] {
 					fn = f
 				}
 			}
